@@ -134,8 +134,6 @@ KeyOf(in, x) == MethodKey(in.classes[x[1]], Mem(in, x))
 \* a utility class is a class whose name contains the word Util / Utils
 IsUtilName(ps) == \E i \in DOMAIN ps : LowerStr(ps[i]) \in {"util", "utils"}
 
-Count(S, P(_)) == Cardinality({x \in S : P(x)})
-
 DiffEval(rec) ==
   LET in  == rec.input
       o   == rec.observed.eval
@@ -187,10 +185,11 @@ ConceptJudged(in) == \A x \in Members(in) : NameOK(Mem(in, x).name) /\ ~Ambiguou
 NonStopWords(ps, stop) == Cardinality({i \in DOMAIN ps : ~IsDigits(ps[i]) /\ LowerStr(ps[i]) \notin stop})
 DigitWords(ps) == Cardinality({i \in DOMAIN ps : IsDigits(ps[i])})
 
-\* Known defect shape (third-party camel-case splitter): a name whose FIRST word is a single lower-case
-\* letter directly followed by an ALLCAPS word that ends the name or is followed by another capital
-\* ("xY", "xURL", "xYZoom" is not: Y,Z adjacent is ambiguous) is not split after the first letter.
-\* With the splitter's reading the first two pieces form ONE word.
+\* Known defect shape (tag concept.single-letter-head-glued; third-party camel-case splitter): a name whose
+\* FIRST word is a single lower-case letter directly followed by an ALLCAPS word ("xY", "xURL", "xURLName",
+\* "xYZoom") is never split after the first letter, so the first two pieces are counted as ONE word
+\* ("xy", "xurl"). GluedReading = the number of non-stop words under that reading; an observed sum is excused
+\* only if it equals it exactly (plus the free digit / constructor words).
 GluedHead(ps) == Len(ps) >= 2 /\ IsAllLower(ps[1]) /\ Len(ps[1]) = 1 /\ IsAllUpper(ps[2])
 GluedReading(ps, stop) ==
   IF GluedHead(ps)
